@@ -14,7 +14,7 @@ import (
 func init() {
 	register(&Prop{
 		ID:          "C17",
-		Explanation: "PARTIAL claim — decides four structural conditions of faithful proxying, not routing or byte fidelity as behaviour: (1) stores into the request line, host and body of an *http.Request (Method, URL, RequestURI, Host, Body, and fields of the URL reached from a request) occur, in production code, only in pkg/upstream (rewrite, director, unix round-tripper) or on values that are clones/new requests; (2) between the outer handler and the upstream no production code reachable from the pass path parses or consumes the body (ParseForm/FormValue/PostFormValue/ParseMultipartForm/MultipartReader/Body reads) outside the reviewed login endpoints; (3) the registration-order comparator puts a rewrite rule before a plain one only when the other has no rewrite target and otherwise orders by longer path, on every true-returning path; (4) the rewrite query merge only appends rewritten values to the client's query (url.Values.Add), never overwrites or replaces entries. Added during the build: (5) every ResponseWriter wrapper of the module relays WriteHeader/Write to the wrapped writer exactly once with the caller's argument on every path; (6) the upstream-host director is installed only for an explicit pass-host-header=false and is the only writer of Request.Host in pkg/upstream (one reviewed exception: the unix round tripper fills an empty Host); (7) the director calls the original director and then sets URL.Opaque to the same request's RequestURI and clears RawQuery, every reverse proxy returned has that director installed, the proxy's own router is NewRouter().UseEncodedPath() and the upstream router uses encoded-path matching exactly when proxyRawPath is set. Round 3: flattenHeaders writes back the join of exactly the values it ranged over (8). Round 4: the structured configuration's upstreamConfig reaches Options.UpstreamServers as one value (proxyRawPath included) and a legacy --upstream is routed under the decoded path (or fragment) of its URL (R9). Round 5: the per-upstream handler objects hand every request to the handler they wrap with the caller's writer and request, and never answer themselves (R10).",
+		Explanation: "PARTIAL claim — decides four structural conditions of faithful proxying, not routing or byte fidelity as behaviour: (1) stores into the request line, host and body of an *http.Request (Method, URL, RequestURI, Host, Body, and fields of the URL reached from a request) occur, in production code, only in pkg/upstream (rewrite, director, unix round-tripper) or on values that are clones/new requests; (2) between the outer handler and the upstream no production code reachable from the pass path parses or consumes the body (ParseForm/FormValue/PostFormValue/ParseMultipartForm/MultipartReader/Body reads) outside the reviewed login endpoints; (3) the registration-order comparator puts a rewrite rule before a plain one only when the other has no rewrite target and otherwise orders by longer path, on every true-returning path; (4) the rewrite query merge only appends rewritten values to the client's query (url.Values.Add), never overwrites or replaces entries. Added during the build: (5) every ResponseWriter wrapper of the module relays WriteHeader/Write to the wrapped writer exactly once with the caller's argument on every path; (6) the upstream-host director is installed only for an explicit pass-host-header=false and is the only writer of Request.Host in pkg/upstream (one reviewed exception: the unix round tripper fills an empty Host); (7) the director calls the original director and then sets URL.Opaque to the same request's RequestURI and clears RawQuery, every reverse proxy returned has that director installed, the proxy's own router is NewRouter().UseEncodedPath() and the upstream router uses encoded-path matching exactly when proxyRawPath is set. Round 3: flattenHeaders writes back the join of exactly the values it ranged over (8). Round 4: the structured configuration's upstreamConfig reaches Options.UpstreamServers as one value (proxyRawPath included) and a legacy --upstream is routed under the decoded path (or fragment) of its URL (R9). Round 5: the per-upstream handler objects hand every request to the handler they wrap with the caller's writer and request, and never answer themselves (R10). Round 6: the ping/ready middleware recognises its endpoints by the request path as sent, EscapedPath() (R11).",
 		NotDecided:  "longest-prefix routing of gorilla/mux over all paths, percent-encoding fidelity through RequestURI/URL.Path/RawPath, response relay by httputil.ReverseProxy, header pass-through: behaviour of third-party routers over all inputs.",
 		Run:         runC17,
 	})
@@ -36,6 +36,8 @@ func runC17(c *Ctx) {
 	runC17R9(c, "R9-upstream-config-verbatim")
 	r.Rule("R10-upstream-handlers-delegate", "the per-upstream handlers (file server, HTTP/WebSocket proxy) hand every request to the handler they wrap, with the caller's writer and request, and never answer themselves", 2)
 	runC17R10(c, "R10-upstream-handlers-delegate")
+	r.Rule("R11-own-endpoints-match-wire-path", "the middleware that answers the ping/ready endpoints itself compares their configured paths with the request's path as sent (EscapedPath()), never with the decoded path", 2)
+	runC17R11(c, "R11-own-endpoints-match-wire-path")
 	r.Rule("R8-flatten-lossless", "flattenHeaders writes back the join of exactly the values it ranged over", 1)
 	runC17R8(c, "R8-flatten-lossless")
 
@@ -792,6 +794,46 @@ func runC17R10(c *Ctx, rule string) {
 			c.R.OK(rule, key, c.P.Pos(fn.Pos()), sprintf("%d return path(s), each through the wrapped handler with the caller's writer and request", n))
 		} else if !bad {
 			c.R.Unknown(rule, key, c.P.Pos(fn.Pos()), "no return path found")
+		}
+	}
+}
+
+// runC17R11: the health-check and readiness middlewares sit in front of everything and answer 200 themselves when the
+// request's path is one of the configured ones. They compare with req.URL.EscapedPath(): a request whose *decoded*
+// path happens to equal /ping (/%70ing) is an ordinary request for the upstream and must be delivered, status and body
+// relayed. In both functions every map lookup or string comparison against a path derived from req.URL uses the
+// EscapedPath() result, not the Path field.
+func runC17R11(c *Ctx, rule string) {
+	for _, name := range []string{"pkg/middleware.isHealthCheckRequest", "pkg/middleware.readynessCheck$1"} {
+		fn := c.Fn(rule, name)
+		if fn == nil {
+			continue
+		}
+		key := "wire-path|" + fnKey(fn)
+		escaped, decoded := 0, 0
+		var at ssa.Instruction
+		for _, b := range fn.Blocks {
+			for _, in := range b.Instrs {
+				switch x := in.(type) {
+				case *ssa.Call:
+					if sc := x.Call.StaticCallee(); sc != nil && sc.String() == "(*net/url.URL).EscapedPath" {
+						escaped++
+					}
+				case *ssa.FieldAddr:
+					if f := walk.FieldOf(x.X.Type(), x.Field); f != nil && (f.Name() == "Path" || f.Name() == "RawPath") && strings.HasSuffix(x.X.Type().String(), "net/url.URL") {
+						decoded++
+						at = in
+					}
+				}
+			}
+		}
+		switch {
+		case decoded > 0:
+			c.bad(rule, key, at, "an endpoint the proxy answers itself is recognised by the decoded path of the request: a percent-encoded spelling of the ping/ready path, which is an ordinary request for the upstream, is answered 200 by the proxy and never delivered", nil, 0)
+		case escaped > 0:
+			c.ok(rule, key, fn.Blocks[0].Instrs[0], "compares with req.URL.EscapedPath()")
+		default:
+			c.R.Unknown(rule, key, c.P.Pos(fn.Pos()), "no path comparison found")
 		}
 	}
 }
